@@ -158,6 +158,41 @@ def check_area(ca, fd, down, outlet, inlets, labels):
     return nt
 
 
+def check_reuse(ca, fd, down, case, labels):
+    """The same Catchment object delineated again from another outlet, with
+    a buffer that may be too small (the call then raises): whatever area the
+    object reports afterwards is the upstream area of the outlet it
+    reports, or it reports none."""
+    n = fd.size
+    out2 = case["start"]
+    nval2 = case["nval"]
+    if G.on_cycle(down, out2):
+        labels.add("reuse:outlet-on-cycle")
+    try:
+        ca.delineate_area(out2, None, nval=nval2)
+        labels.add("reuse:second-call-returned")
+    except ValueError:
+        labels.add("reuse:second-call-raised")
+    try:
+        a = [int(x) for x in ca.idxcells_area]
+        f = set(int(x) for x in ca.idxcells_area_filled)
+        o = int(ca.idxcell_outlet)
+    except ValueError:
+        labels.add("reuse:no-area-after-failure")
+        return
+    if G.on_cycle(down, o):
+        return
+    m = G.area_model(down, o, set())
+    if set(a) != m and not (len(m) + 1 > nval2 and set(a) <= m):
+        raise Violation(
+            f"after delineate_area({out2}, nval={nval2}) on an object that "
+            f"already held an area: reported outlet {o}, area {sorted(a)}, "
+            f"upstream area of that outlet {sorted(m)}; grid {fd.tolist()}")
+    if set(a) == m and not set(a) <= f:
+        raise Violation("filled area does not contain the area after the "
+                        "second delineation")
+
+
 def check_river(g, fd, down, start, nval, labels):
     nr, nc = fd.shape
     try:
@@ -377,6 +412,7 @@ def random_oracle(case):
         if pick not in inlets:
             inlets.append(pick)
     nt = check_area(ca, fd, down, outlet, inlets, labels)
+    check_reuse(ca, fd, down, case, labels)
     check_river(g, fd, down, case["start"], case["nval"], labels)
     if any(G.chains(down)[1]):
         labels.add("grid-has-cycle")
@@ -387,10 +423,8 @@ def random_oracle(case):
 
 # ------------------------------------------------------------ large grids
 def enum_large(tier):
-    shapes = [(150, 200), (3, 6000), (6000, 3), (1, 30000)] \
-        if tier == "quick" else \
-        [(150, 200), (3, 6000), (6000, 3), (1, 30000), (400, 500),
-         (2, 60000), (60000, 2)]
+    quick = [(150, 200), (3, 6000), (6000, 3), (1, 30000), (1, 255), (1, 256), (1, 257), (16, 16), (17, 15), (32, 33), (64, 64), (128, 2), (2, 129)]
+    shapes = quick if tier == "quick" else quick + [(400, 500), (2, 60000), (60000, 2)]
     for nr, nc in shapes:
         for k in range(3):
             yield {"nrows": nr, "ncols": nc, "k": k}
